@@ -126,7 +126,10 @@ Definition property_ci_valid (tb : caltab) (ci : Z) : bool :=
   (ci =? -1) || match cal_at tb ci with Some _ => true | None => false end.
 
 (* ------------------------------------------------------------------ vnacal_set_fprecision / dprecision *)
-Definition env_precision (p : Z) : env := lookup [("precision", VInt p)].
+Definition env_precision (h : handle) (p : Z) : env := lookup (vcp_vars h ++ [("precision", VInt p)]).
+(* does the function test its object pointer first (as found: these two do not; fix DC91 adds the test)? *)
+Definition has_handle_test (c : list cstep) : bool :=
+  match c with SDirect _ E_INVAL _ :: _ => true | _ => false end.
 
 (* ------------------------------------------------------------------ vnacal_apply / vnacal_apply_m *)
 Record apply_args : Type := mkapp {
@@ -284,3 +287,66 @@ Definition n2_inv (s : n2sum) : Prop :=
   dle (n2_pvalue s) d0 = false /\ dgt (n2_pvalue s) d1 = false /\
   dlt (n2_ptol s) d0 = false /\ dlt (n2_ettol s) d0 = false /\
   (v_merror (n2_sum s) = true -> v_fvalid (n2_sum s) = true).
+
+(* ------------------------------------------------------------------ _vnacal_new_add_common *)
+(* the port-map scan with the test that stops it: the port is below 1, the running maximum exceeds the ports of
+   the calibration (at index idx: the row test fires for idx < s_rows, the column test otherwise), the port was seen *)
+Inductive scode : Type := SBelow | SBound (idx : Z) | SDup.
+Fixpoint scan_code (ports : Z) (l : list Z) (seen : list Z) (maxp idx : Z) : option scode :=
+  match l with
+  | [] => None
+  | p :: r =>
+      if p <? 1 then Some SBelow
+      else let m := Z.max maxp p in
+           if m >? ports then Some (SBound idx)
+           else if existsb (Z.eqb p) seen then Some SDup
+           else scan_code ports r (p :: seen) m (idx + 1)
+  end.
+
+(* ptype / min_b_rows / min_b_columns as the switch on the type sets them (gen_add_type_table); a type the switch
+   does not list (the C code aborts) gets 0 *)
+Definition add_type_row (t : Z) : option (Z * string * string) :=
+  match find (fun p => Z.eqb (fst p) t) gen_add_type_table with Some p => Some (snd p) | None => None end.
+
+Definition env_add (s : nsum) (a : addargs) : env :=
+  let t := v_type s in
+  let P := v_ports s in
+  let named (n : string) : Z :=
+    if String.eqb n "s_ports" then Z.max (aa_s_rows a) (aa_s_cols a)
+    else if String.eqb n "s_rows" then aa_s_rows a
+    else if String.eqb n "s_columns" then aa_s_cols a
+    else if String.eqb n "full_m_rows" then v_rows s
+    else if String.eqb n "full_m_columns" then v_cols s
+    else 0 in
+  let row := add_type_row t in
+  let code := match aa_map a with Some m => scan_code P m [] 0 0 | None => None end in
+  lookup [("b_matrix", VPtr (aa_b_null a));
+          ("s_rows", VInt (aa_s_rows a)); ("s_columns", VInt (aa_s_cols a));
+          ("full_s_rows", VInt P); ("full_s_columns", VInt P); ("full_s_ports", VInt P);
+          ("ptype", VInt (match row with Some (p, _, _) => p | None => 0 end));
+          ("min_b_rows", VInt (match row with Some (_, r, _) => named r | None => 0 end));
+          ("min_b_columns", VInt (match row with Some (_, _, c) => named c | None => 0 end));
+          ("VL_TYPE(vlp)", VInt t);
+          ("s_port_map", optnull (aa_map a));
+          ("b_rows", VInt (aa_b_rows a)); ("b_columns", VInt (aa_b_cols a));
+          ("full_m_rows", VInt (v_rows s)); ("full_m_columns", VInt (v_cols s));
+          ("a_matrix", optnull (aa_a a));
+          ("atom:add_map_port_outside_m",
+           bval (match aa_map a with
+                 | Some m => existsb (fun p => ((aa_b_rows a <? v_rows s) && (p >? v_rows s)) ||
+                                               ((aa_b_cols a <? v_cols s) && (p >? v_cols s))) m
+                 | None => false end));
+          ("atom:add_a_dimensions_wrong",
+           bval (match aa_a a with
+                 | Some (ar, ac) => negb (ar =? (if is_ue14 t then 1 else aa_b_cols a)) || negb (ac =? aa_b_cols a)
+                 | None => false end));
+          ("atom:add_scan_port_below_1", bval (match code with Some SBelow => true | _ => false end));
+          ("atom:add_scan_row_bound", bval (match code with Some (SBound i) => i <? aa_s_rows a | _ => false end));
+          ("atom:add_scan_column_bound", bval (match code with Some (SBound i) => negb (i <? aa_s_rows a) | _ => false end));
+          ("atom:add_scan_duplicate", bval (match code with Some SDup => true | _ => false end));
+          ("atom:add_parameter_invalid", bval (negb (forallb (check_parameter (v_params s)) (aa_cells a))));
+          ("atom:add_a_matrix_singular", bval (aa_a_singular a));
+          ("atom:add_full_s_incomplete_16", bval (v_merror s && is_16 t && aa_s_incomplete a))].
+
+(* the calibration types a vnacal_new_t can have (vnacal_new_alloc stores E12 as _VNACAL_E12_UE14) *)
+Definition new_type_ok (t : Z) : bool := (0 <=? t) && (t <=? 7).
